@@ -26,6 +26,13 @@ MSG_NOTE = ("Trusted: Coq kernel (Print Assumptions: closed under the global con
             "(floats: Coq.Floats.SpecFloat, bit-exact); the executable model declines (EOther) when a group repeat "
             "count exceeds its budget of 6000 — such cases are counted, not compared.")
 
+SRC_NOTE = (" Translation tie: harness/py2coq.py translates the function body from /repo on every run into Gallina "
+            "(gen/PySrc.v) over coq/model/PyMini.v (one value type; Python's ==, len, slicing, in, +, -, &, %, truthiness, "
+            "dict lookup as defined there: that file and the translator are trusted); the *_from_source theorem proves the "
+            "translated body equal to the hand-written model for all inputs. A function the translator cannot handle is "
+            "reported in the evidence (source_functions_not_translated), its theorem is then empty and its tie is the "
+            "correspondence alone.")
+
 CHECKS = {
     "C01": dict(
         technique="Coq proof (parse of a well-formed frame stores class/id/payload verbatim and recomputes length and checksum; repr re-construction) + extracted-model correspondence incl. eval(repr)",
@@ -33,12 +40,12 @@ CHECKS = {
              "validate and bitfield setting, a returned message serializes to the input and its class, id, length and "
              "payload are the frame's. C01_repr: the message eval(repr(m)) constructs serializes identically. "
              "C01_repr_total_partial: that re-construction succeeds (proved for parsebitfield=True; False by "
-             "correspondence). Python's repr/eval text is exercised, not modelled.",
-        note=MSG_NOTE, ref="DESIGN.md §6 C01"),
+             "correspondence). Python's repr/eval text is exercised, not modelled. C01_serialize_from_source: serialize() as the source has it now is the model's serialize (translated on every run).",
+        note=MSG_NOTE + SRC_NOTE, ref="DESIGN.md §6 C01"),
     "C02": dict(
         technique='Coq proof (ghost trace of the definition walk: induction over the nested definition type for every definition list, payload, repeat count and bitfield view) + extracted-model correspondence on every definition + independent spec decoder',
-        text="C02_trace: for every definition list and payload the fields read tile the payload from offset 0 in definition order, each recorded value is the decoding (little-endian / two's complement / IEEE-754 / scaled+rounded / raw bitfield / bit slice) of exactly its own bytes, the payload is untouched and the attribute dictionary is the records applied in order; C02_shape: the records are the definition unfolded with index paths [1],[2],.. ([1;1].. nested); C02_int_field, C02_flag, C02_payload_unchanged. C02_variant_lengths (table) and C02_variant_cfgnmea/aopstatus/rxmpmreq/rxmrlm/relposned/secsig/alpsrv: which definition each payload variant selects (length- or byte-discriminated), with the dispatch table regenerated from the code; the selectors' bodies are hand-modelled and tied by correspondence; the cfg key/value walk is C14's. Searches: independent spec decoder vs the implementation over every (mode, definition, variant) x counts incl. mixed zero/non-zero counts x fills x both bitfield views.",
-        note=MSG_NOTE, ref="DESIGN.md §6 C02"),
+        text="C02_trace: for every definition list and payload the fields read tile the payload from offset 0 in definition order, each recorded value is the decoding (little-endian / two's complement / IEEE-754 / scaled+rounded / raw bitfield / bit slice) of exactly its own bytes, the payload is untouched and the attribute dictionary is the records applied in order; C02_shape: the records are the definition unfolded with index paths [1],[2],.. ([1;1].. nested); C02_int_field, C02_flag, C02_payload_unchanged. C02_variant_lengths (table) and C02_variant_cfgnmea/aopstatus/rxmpmreq/rxmrlm/relposned/secsig/alpsrv: which definition each payload variant selects (length- or byte-discriminated), with the dispatch table regenerated from the code; the cfg key/value walk is C14's. Searches: independent spec decoder vs the implementation over every (mode, definition, variant) x counts incl. mixed zero/non-zero counts x fills x both bitfield views. C02_selectors_from_source: every row of VARIANTS — the source's selector function, translated on every run and called the way _get_dict calls it — returns for every keyword set / payload the definition the model's selector returns; variant sweep (every row x payload lengths x discriminator bytes) in the correspondence.",
+        note=MSG_NOTE + SRC_NOTE, ref="DESIGN.md §6 C02"),
     "C03": dict(
         technique='Coq proof (build/parse simulation over the ghost trace for every definition list; real-number error analysis over Flocq for the scaled round trip) + refutation witnesses for the recorded findings + BUILD correspondence / rebuild search',
         text="C03_payload (payload = concatenation of one encoding per field, keyword or nominal), C03_build_parse / _auto / C03_construct_roundtrip(_plain) (parsing the built payload gives back the very trace and attributes, whole payload consumed; no premise for integer/X/bitfield members), C03_int_field_roundtrip, C03_flag_roundtrip; C03_scaled_within_one: for EVERY raw value of up to 32 bits and EVERY float scale >= 1e-12, int(round(raw*s,12)/s) differs from raw by at most 1 (Flocq; four standard-library real-number axioms), with the table obligation C03_table_scales (every shipped float scale meets the premise or is a recorded sub-1e-12 scale) and C03_table_scaled_within_one. Exact equality is REFUTED on the unchanged tree (C03_scaled_refuted, C03_smallscale_refuted: recorded findings). Partial: the generic theorem needs 'static' definitions (no variable-by-size group / CH in the middle) and representable values (rt_ok); variant selection by correspondence.",
@@ -56,11 +63,11 @@ CHECKS = {
         text="Theorems over all byte strings: whatever UBXReader.parse's validation accepts is a well-formed frame "
              "(C05_sound/C05_fields), every well-formed frame is accepted, any single substitution / truncation / "
              "non-well-formed result is rejected with UBXParseError, VALNONE ignores the checksum bytes. The model of "
-             "parse() is hand-written Gallina tied to the code by a differential run on ~40k inputs per quick run "
-             "(exhaustive substitutions, all short strings over a frame alphabet).",
+             "parse() is hand-written Gallina tied to the code by translation (C05_parse_from_source) and by a differential run on ~40k inputs per quick run "
+             "(exhaustive substitutions, all short strings over a frame alphabet). C05_parse_from_source: the body of UBXReader.parse as the source has it now (translated on every run), with its final constructor call handed to the model's constructor, equals the model's parse for every byte string and option value.",
         note="Trusted: Coq kernel; Print Assumptions = closed under the global context; the hand-written model of "
-             "parse() (Frame.v) is tied to ubxreader.py by correspondence, not by translation; extraction "
-             "(ExtrOcamlBasic only) and the OCaml driver; CPython slicing/int.from_bytes semantics as modelled.",
+             "parse() (Frame.v) is tied to ubxreader.py by correspondence and by translation (py2coq + PyMini.v, trusted); extraction "
+             "(ExtrOcamlBasic only) and the OCaml driver; CPython slicing/int.from_bytes semantics as modelled." + SRC_NOTE,
         ref="DESIGN.md §6 C05"),
     "C06": dict(
         technique="Coq proof (reader = interpretation of a configuration-independent framing trace; clean-stream theorem by induction over chunk lists) + correspondence with recorded parser oracle",
@@ -113,16 +120,16 @@ CHECKS = {
              "table mutation, history and thread independence: by construction in the model (pure functions over "
              "immutable tables); for the implementation they are checked at run time (fd-level capture, structural "
              "digests, probe set after random histories and in 8 concurrent threads) — partial: interleavings are "
-             "sampled.",
-        note=MSG_NOTE, ref="DESIGN.md §6 C13"),
+             "sampled. C13_setattr_from_source / C13_delattr_from_source: __setattr__ / __delattr__ as the source has them now (translated on every run) raise UBXMessageError whenever _immutable is set, for every name and value, and otherwise delegate once to object; the probes also try every identifier the class's source mentions.",
+        note=MSG_NOTE + SRC_NOTE, ref="DESIGN.md §6 C13"),
     "C14": dict(
         technique='Coq proof (layout of config_set/del/poll for every item list; parse of CFG-VALSET / CFG-VALGET key lists by induction on the item list with a fuel lemma) + finite table obligations by vm_compute over the whole generated database + correspondence',
         text="C14_set/del/poll_layout + C14_items/keys_layout (header, then each LE32 key id and value at the key type's width, in order, any length <= 64), C14_limit (> 64 refused; limit lifted from the code each run); table obligations over all keys: C14_sizecodes, C14_names_nodup, C14_ids_nodup_partial and C14_lookup_inverse_partial (all but the recorded duplicate id 0x10340014), C14_unknown_key; parse side: C14_items_walk, C14_valget_parse, C14_valset_parse (one attribute per key, named by the key or CFG_0x.., equal to its value, for every well-typed item list) and C14_config_set_parse (what config_set builds, parse exposes).",
         note=MSG_NOTE, ref="DESIGN.md §6 C14"),
     "C15": dict(
         technique='Coq proof (constructor raises only UBX errors for ANY keyword values; payload length and per-field byte isolation over the ghost trace; integer/X refusal; flag range + bit isolation; Flocq error analysis for scaled fields) + BUILD correspondence over a typed value pool + search with an independent spec decoder',
-        text="C15_no_foreign (all pyval keyword values, every shipped definition), C15_build_length / C15_construct_length (payload length = length implied by the definition and the counts), C15_field_bytes (each field's bytes are a function of its own value only), C15_int_refused, C15_x_length, C15_flag_range, C15_flag_isolation; C15_scaled_within_unit: a finite float supplied for a scaled field of up to 32 bits comes back from parse within one unit of resolution (x 1.001 + 1e-12) for every value and every positive scale (Flocq; four standard-library real-number axioms). C15_clen_refuted is the witness of the recorded finding (C-type values are not length-checked).",
-        note=MSG_NOTE + AXIOM_NOTE, ref="DESIGN.md §6 C15"),
+        text="C15_no_foreign (all pyval keyword values, every shipped definition), C15_build_length / C15_construct_length (payload length = length implied by the definition and the counts), C15_field_bytes (each field's bytes are a function of its own value only), C15_int_refused, C15_x_length, C15_flag_range, C15_flag_isolation; C15_scaled_within_unit: a finite float supplied for a scaled field of up to 32 bits comes back from parse within one unit of resolution (x 1.001 + 1e-12) for every value and every positive scale (Flocq; four standard-library real-number axioms). C15_clen_refuted is the witness of the recorded finding (C-type values are not length-checked). C15_len_checksum_from_source: _do_len_checksum as the source has it now (translated on every run) is the model's len_cksum.",
+        note=MSG_NOTE + AXIOM_NOTE + SRC_NOTE, ref="DESIGN.md §6 C15"),
     "C16": dict(
         technique="Coq: executable grammar wf_def evaluated by vm_compute over the whole generated tables (finite domain = the tables as found in the working tree) + nominal build/parse of every entry inside Coq; translator is the tie",
         text="C16_tables_wf / C16_entries_wf: every entry of the GET/SET/POLL tables obeys the documented grammar (types, "
@@ -138,12 +145,12 @@ CHECKS = {
              "returns the definition's mode, except the recorded ambiguities (empty-payload SET; AID-ALM/AOP/EPH polls "
              "with svid); C17_set_resolves / C17_poll_resolves: what those obligations mean - every frame of such a definition's "
              "class/id with a length its payload can have is parsed under SETPOLL exactly as under its own mode; "
-             "C17_full_refuted gives the witnesses of the recorded ambiguities.",
-        note=MSG_NOTE, ref="DESIGN.md §6 C17"),
+             "C17_full_refuted gives the witnesses of the recorded ambiguities. C17_getinputmode_from_source: getinputmode as the source has it now (translated on every run) is the model's getinputmode for every byte string.",
+        note=MSG_NOTE + SRC_NOTE, ref="DESIGN.md §6 C17"),
     "C18": dict(
         technique="Coq proof (integer codec round trip for every width; X/C/nomval; R8 bit round trip; Fletcher closed form; get_bits; att2idx/att2name invert the walk's suffixing by induction over decimal printing) + exhaustive/boundary correspondence incl. the float engine and long inputs",
-        text="C18_int_rt / C18_int_refuse / C18_bytes_rt for E,I,L,U of every width; C18_x_rt/_refuse, C18_c_rt, C18_nomval; C18_r8_bits_rt (all 2^64 patterns but non-canonical NaNs); C18_fletcher_spec, C18_isvalid; C18_get_bits; C18_att2name / C18_att2idx (every base name without '_', every index path, any depth and magnitude); C18_r4_bits_rt / C18_r4_codec_rt (single precision: unpack then pack is the identity on every non-NaN 32-bit pattern; Flocq, four standard-library real-number axioms). C18_val2sphp (sp = truncated quotient, sp + hp/100 within 0.005 + 1e-12 of the quotient, |hp| <= 100; Flocq). Partial: utc2itow/itow2utc (datetime arithmetic) are checked on the implementation only (dense sample of the week); protocol() is proved equal to the reader's dispatch in C07/C11.",
-        note=MSG_NOTE + AXIOM_NOTE.replace("scaled-field theorems", "R4 theorems"), ref="DESIGN.md §6 C18"),
+        text="C18_int_rt / C18_int_refuse / C18_bytes_rt for E,I,L,U of every width; C18_x_rt/_refuse, C18_c_rt, C18_nomval; C18_r8_bits_rt (all 2^64 patterns but non-canonical NaNs); C18_fletcher_spec, C18_isvalid; C18_get_bits; C18_att2name / C18_att2idx (every base name without '_', every index path, any depth and magnitude); C18_r4_bits_rt / C18_r4_codec_rt (single precision: unpack then pack is the identity on every non-NaN 32-bit pattern; Flocq, four standard-library real-number axioms). C18_val2sphp (sp = truncated quotient, sp + hp/100 within 0.005 + 1e-12 of the quotient, |hp| <= 100; Flocq). Partial: utc2itow/itow2utc (datetime arithmetic) are checked on the implementation only (dense sample of the week); protocol() is proved equal to the reader's dispatch in C07/C11. C18_checksum_from_source / C18_isvalid_from_source: calc_checksum (loop, by induction) and isvalid_checksum as the source has them now (translated on every run) are the model's.",
+        note=MSG_NOTE + AXIOM_NOTE.replace("scaled-field theorems", "R4 theorems") + SRC_NOTE, ref="DESIGN.md §6 C18"),
     "C12": dict(
         technique="Coq proof (list induction over the framing trace for the three error policies) + correspondence incl. handler calls and raised exception",
         text="C12_ignore_log, C12_handler (handler called exactly once per rejection, in order, with that exception, "
